@@ -37,7 +37,8 @@ DerClasses(b, d) ==
   \cup (IF Len(b) >= 3 /\ b[1] = 48 /\ b[2] < 128 /\ b[2] # Len(b) - 2 THEN {"der_trailing"} ELSE {})
 
 Verdict(ev) ==
-  CASE ev.ev = "der.Parse" ->
+  CASE ev.ev = "lib.Unexpected" -> << FALSE, {} >>                 \* a call that must succeed failed or panicked
+    [] ev.ev = "der.Parse" ->
          LET b == HB(ev["in"])  d == ParseDerSig(b) IN
          << ~ev.panic
             /\ IF d[1] = "ok" THEN ev.ok /\ IntIsHex(d[2], W, ev.r) /\ IntIsHex(d[3], W, ev.s) /\ ev.rebuilt = ev["in"]   \* parse-then-build
